@@ -30,7 +30,7 @@ var c08 = core.Register(&core.Prop{
 	Shards: func(tier string) int { return pickTier(tier, 8, 16) },
 	Floors: func(c map[string]int64, tier string) []string {
 		var out []string
-		for _, k := range []string{"order_comparisons", "pairs", "repeat_evaluations", "foreign_operations", "tree_dumps_compared", "error_results_repeated", "value_results_repeated", "field_analyses"} {
+		for _, k := range []string{"order_comparisons", "pairs", "repeat_evaluations", "foreign_operations", "tree_dumps_compared", "error_results_repeated", "value_results_repeated", "field_analyses", "shared_data_runs"} {
 			if c[k] == 0 {
 				out = append(out, "coverage floor: no "+k)
 			}
@@ -94,7 +94,10 @@ func fieldsOf(sc *formula.SourceCode) string {
 var c08Pure = core.Mon(c08, "repeat-and-interleave", func(w *core.W, c *PureCase) {
 	w.Eval(1)
 	sc, err := hostParse([]byte(c.Src), true)
-	sc2, err2 := hostParse([]byte(c.Src), true)
+	// the second parse is from a private buffer that stays as it is; the first one is from the host's reused
+	// buffer, which holds something else by the time the tree is used: the two trees must not differ
+	private := []byte(c.Src)
+	sc2, err2 := formula.ParseSourceCode(private)
 	if (err == nil) != (err2 == nil) || (err != nil && err.Error() != err2.Error()) {
 		w.Violation("repeat-and-interleave", "C08/parse-outcome-differs", c, fmt.Sprint(err), fmt.Sprint(err2), "parsing the same text twice gave different outcomes: "+fmt.Sprintf("%q", clipS(c.Src, 120)))
 		return
@@ -106,8 +109,12 @@ var c08Pure = core.Mon(c08, "repeat-and-interleave", func(w *core.W, c *PureCase
 	w.Count("pairs")
 	d0 := obs.FullDump(sc)
 	w.Count("tree_dumps_compared")
-	if d2 := obs.FullDump(sc2); d2 != d0 {
-		w.Violation("repeat-and-interleave", "C08/parse-not-deterministic", c, clipS(d0, 300), clipS(d2, 300), "two parses of the same text give different trees")
+	if de, d2 := obs.FullDump(sc.Expression), obs.FullDump(sc2.Expression); d2 != de {
+		w.Violation("repeat-and-interleave", "C08/parse-not-deterministic", c, clipS(d2, 300), clipS(de, 300), "two parses of the same text give different trees (one from a private buffer, one from a buffer the host has re-used since)")
+		return
+	}
+	if string(private) != c.Src {
+		w.Violation("repeat-and-interleave", "C08/parse-wrote-into-callers-buffer", c, clipS(c.Src, 200), clipS(string(private), 200), "parsing changed the text it was given")
 		return
 	}
 	clock := false
@@ -127,6 +134,11 @@ var c08Pure = core.Mon(c08, "repeat-and-interleave", func(w *core.W, c *PureCase
 	first := evalTree(sc, c.Data)
 	f0 := fieldsOf(sc)
 	w.Count("field_analyses")
+	if o2, f2 := evalTree(sc2, c.Data), fieldsOf(sc2); !clock && (o2 != first || f2 != f0) {
+		w.Violation("repeat-and-interleave", "C08/tree-depends-on-callers-buffer", c, clipS(o2+" fields "+f2, 300), clipS(first+" fields "+f0, 300),
+			fmt.Sprintf("the tree parsed from a buffer the host re-used afterwards evaluates/analyses differently from the tree of the same text %q parsed from a private buffer", clipS(c.Src, 120)))
+		return
+	}
 	for rep := 0; rep < c.Reps; rep++ {
 		// unrelated work in between
 		for i, fs := range c.Foreign {
@@ -162,6 +174,43 @@ var c08Pure = core.Mon(c08, "repeat-and-interleave", func(w *core.W, c *PureCase
 			if err3 != nil || obs.FullDump(sc3) != d0 {
 				w.Violation("repeat-and-interleave", "C08/parse-depends-on-history", c, "same tree", fmt.Sprint(err3), c.Src)
 				return
+			}
+		}
+	}
+	// one data object serving many evaluations (a host builds the record once and evaluates many formulas
+	// against it): what one evaluation does must not change what the next one sees. Locals are the
+	// formulas' own writes into the map and are removed after each evaluation.
+	if !clock {
+		shared, _ := val.Build(c.Data, &val.Env{}).(map[string]interface{})
+		own := map[string]bool{}
+		for k := range shared {
+			own[k] = true
+		}
+		onShared := func(t *formula.SourceCode) string {
+			r := formula.NewRunner()
+			r.SetThis(shared)
+			var v interface{}
+			var err error
+			p, pv := core.Call(func() { v, err = r.Resolve(context.Background(), t.Expression) })
+			out := outcome(v, err, p, pv)
+			for k := range shared {
+				if !own[k] {
+					delete(shared, k)
+				}
+			}
+			return out
+		}
+		w.Count("shared_data_runs")
+		for round := 0; round < 2; round++ {
+			if got := onShared(sc); got != first {
+				w.Violation("repeat-and-interleave", "C08/evaluation-changed-callers-data", c, clipS(first, 300), clipS(got, 300),
+					fmt.Sprintf("%q evaluated against a data object that earlier evaluations (of itself and of %d other formulas) had used gives a different outcome than against freshly built equal data", clipS(c.Src, 120), len(c.Foreign)))
+				return
+			}
+			for _, fs := range c.Foreign {
+				if fsc, ferr := hostParse([]byte(fs), true); ferr == nil {
+					onShared(fsc)
+				}
 			}
 		}
 	}
@@ -329,6 +378,13 @@ func runC08(w *core.W) {
 	}
 	for i := 0; i < w.Pick(1500, 4000); i++ {
 		pool = append(pool, ref.Print(NoSelfStore(cfg.Node(r, 1+r.Intn(5)))))
+	}
+	// literal spellings that the scanner has to rewrite (escapes, digit separators), and spread calls over data containers
+	pool = append(pool, hostileLiteralPool...)
+	for _, f := range append(append([]string{}, stdFuncs...), safeBuiltins()...) {
+		for _, cont := range []string{"arr", "strs", "ms", "x0", "x1", "odd"} {
+			pool = append(pool, f+"("+cont+"...)", f+"(1, "+cont+"...)", "$v = "+cont+", "+f+"($v...)")
+		}
 	}
 	reps := w.Pick(5, 20)
 	for i, n := 0, w.Pick(9000, 60000); i < n; i++ {
